@@ -578,6 +578,14 @@ func allJobs(cfg out.Config, raceMode bool) []job {
 	for _, sc := range scenarios(cfg, r, raceMode) {
 		jobs = append(jobs, job{"fresh", sc, nominal(sc, 1)})
 	}
+	if !raceMode { // unit level ownership effects: single goroutine, nothing for the detector
+		for _, sh := range shapes {
+			for _, rq := range []reqSpec{reqA, reqB, reqCL} {
+				sc := scenario{name: "alias:" + sh.name, epMethod: "POST", cc: 1, bs: []beSpec{sh.b}, req: rq}
+				jobs = append(jobs, job{"alias", sc, nominal(sc, len(aliasKinds))})
+			}
+		}
+	}
 	seqs, concs := reuseScenarios(cfg, r, raceMode)
 	for _, sc := range seqs {
 		jobs = append(jobs, job{"seq", sc, nominal(sc, len(sc.seq))})
@@ -613,7 +621,7 @@ func inScope(ep *config.EndpointConfig, rq reqSpec) reqSpec {
 }
 
 func stepRequest(j job, step int) reqSpec {
-	if j.kind == "fresh" {
+	if j.kind == "fresh" || j.kind == "alias" {
 		return j.sc.req
 	}
 	return j.sc.seq[step%len(j.sc.seq)]
@@ -801,6 +809,10 @@ func worker(cfg out.Config, raceMode bool, from, to, upto int, outPath string) {
 				}
 			}
 			emitRec(caseRecord(sc, "fresh", 0, ep, rq, *keep, alone, writers, problems, freshReports(), ""))
+		case "alias":
+			for _, rec := range aliasRecords(sc, ep, 0, sc.req) {
+				emitRec(rec)
+			}
 		case "seq": // sequential reuse: ONE instance serves the whole sequence, every step is a case
 			inst := newInstance(ep)
 			for i, rq0 := range sc.seq {
@@ -972,7 +984,7 @@ func main() {
 		if err != nil {
 			return
 		}
-		stream := map[string]string{"fresh": "fresh", "seq": "reuse-seq", "conc": "reuse-conc"}[j.kind]
+		stream := map[string]string{"fresh": "fresh", "seq": "reuse-seq", "conc": "reuse-conc", "alias": "alias"}[j.kind]
 		n := j.nominal - emitted
 		if n < 1 {
 			n = 1
@@ -1061,7 +1073,7 @@ func main() {
 	w.Meta["race_reports_with_lura_frames"] = raceReports
 	w.Meta["worker_processes"] = workers
 	w.Meta["worker_crashes"] = crashes
-	w.Close("regression corpus (GraphQL next to plain/filtered siblings, GET and POST endpoints, concurrent calls 2..3, mutation with invalid body) -> all ordered pairs of 20 backend shapes (methods GET/HEAD/POST/PUT/OPTIONS/TRACE/PATCH/PURGE, lower and mixed case spellings) x concurrent_calls 1..2 x 2 client requests, all singles x cc 1..3 -> random endpoints of 1..4 backends with random filter lists (0..3 names), GraphQL options, methods, per-backend concurrent_calls 1..3, random client headers/query/params/body -> instance reuse: one factory-built endpoint proxy serving a sequence of 4..5 different requests (each step a case; corpus orders + random endpoints) and the same instance hit by 12 goroutines x 6 iterations over 4 distinct requests (one case per distinct request/observation); every scenario is run as fan-out (stub executors meet at a barrier) and per backend alone; nontrivial = more than one backend or concurrent_calls > 1", false)
+	w.Close("regression corpus (GraphQL next to plain/filtered siblings, GET and POST endpoints, concurrent calls 2..3, mutation with invalid body) -> all ordered pairs of 20 backend shapes (methods GET/HEAD/POST/PUT/OPTIONS/TRACE/PATCH/PURGE, lower and mixed case spellings) x concurrent_calls 1..2 x 2 client requests, all singles x cc 1..3 -> random endpoints of 1..4 backends with random filter lists (0..3 names), GraphQL options, methods, per-backend concurrent_calls 1..3, random client headers/query/params/body -> unit level ownership effects (alias stream): Clone, CloneRequest, header filter, query filter, request builder, GraphQL middleware and load balancer applied alone to 3 requests x 22 backend shapes, which fields of the request handed on are the received objects (pointer identity of maps, value-slice backing arrays, body reader) -> instance reuse: one factory-built endpoint proxy serving a sequence of 4..5 different requests (each step a case; corpus orders + random endpoints) and the same instance hit by 12 goroutines x 6 iterations over 4 distinct requests (one case per distinct request/observation); every scenario is run as fan-out (stub executors meet at a barrier) and per backend alone; nontrivial = more than one backend or concurrent_calls > 1", false)
 }
 
 func describe(bs []beSpec) string {
